@@ -614,6 +614,6 @@ func TestC02(t *testing.T) {
 	}
 	enumerate(t)
 	ev.Check(t, rec, "fault", rec.Pick(250, 1500), genCase, runCase)
-	ev.Check(t, rec, "concurrent", rec.Pick(40, 400), genConc, runConc)
-	ev.Check(t, rec, "timeouts", rec.Pick(4, 120), genTimeouts, runTimeouts)
+	ev.Check(t, rec, "concurrent", rec.Pick(40, 300), genConc, runConc)
+	ev.Check(t, rec, "timeouts", rec.Pick(4, 60), genTimeouts, runTimeouts)
 }
